@@ -216,6 +216,20 @@ def redis_host_case(ctx, k):
                                          'threaded', after, got), w)
                 return False
             return True
+        # (pub/sub keeps nothing for a subscriber that is not there yet: the
+        # listener thread must have subscribed before the first message is
+        # published; on a loaded machine that can take a while)
+        t_end = time.time() + 20
+        while True:
+            pump()
+            with broker.lock:
+                alive = any(b'socketio' in ps.channels for ps in broker.subs)
+            if alive or time.time() > t_end:
+                break
+            time.sleep(0.003)
+        if not alive:
+            ctx.count('redis_hosts_that_never_subscribed_in_time')
+            return
         if not sentinel('at the start'):
             return
         for _ in range(rng.choice([3, 6, 10])):
